@@ -424,12 +424,12 @@ pub fn spec_for(which: &str, replay: bool) -> Spec<'static> {
     } else {
         Spec {
             level: "fault_enumeration",
-            rule: "a case is (position, depth, deadline). Deadlines are deterministic (after L nodes — every L for small searches, stratified otherwise — or at the n-th poll) or real wall-clock budgets of 0..20 ms; positions include promotion races whose quiescence explodes and middlegames at depth 4..5. Observed: the number of nodes expanded between the moment the deadline passed (recorded by the hook at the node counter) and the return of the search; a cap turns a search that keeps going into a caught event. Black-box part: CPU time of the real release binary between 'go movetime T' and 'bestmove'. Violation: more than 5000 nodes after the deadline, or CPU time above T + 500 ms. Distinct by (position, depth, deadline); non-trivial when the deadline really fell inside the search",
+            rule: "a case is (position, depth, deadline). Deadlines are deterministic (after L nodes — every L for small searches, stratified otherwise — or at the n-th poll) or real wall-clock budgets of 0..20 ms (on fresh engines and on engines that have just finished a long search); positions include promotion races whose quiescence explodes and middlegames at depth 4..5. Observed: the number of nodes expanded between the moment the deadline passed (recorded by the hook at the node counter) and the return of the search; a cap turns a search that keeps going into a caught event. Black-box part: CPU time of the real release binary between 'go movetime T' and 'bestmove'. Violation: more than 5000 nodes after the deadline, or CPU time above T + 500 ms. Distinct by (position, depth, deadline); non-trivial when the deadline really fell inside the search",
             assumptions: vec![
                 "5000 nodes / 500 ms are the monitor's reading of 'a small bounded amount of further work' (the unchanged engine overshoots by at most one node); a legitimate poll-every-few-thousand-nodes design is deliberately not accused".into(),
                 "CPU time of a single-threaded process never exceeds its wall time, so CPU time above the bound is a sound witness of a wall-clock overrun whatever the machine load".into(),
             ],
-            required: if replay { vec![] } else { vec!["interrupted_searches", "explosive_quiescence_trials", "deep_middlegame_trials", "wall_clock_trials", "blackbox_go_movetime"] },
+            required: if replay { vec![] } else { vec!["interrupted_searches", "explosive_quiescence_trials", "deep_middlegame_trials", "wall_clock_trials", "wall_clock_trials_on_an_engine_that_searched_before", "blackbox_go_movetime", "blackbox_short_go_after_a_long_search"] },
             exhaustive: false,
             extra: vec![],
         }
@@ -437,7 +437,7 @@ pub fn spec_for(which: &str, replay: bool) -> Spec<'static> {
 }
 
 fn replay_case(which: &str, c: &J, st: &mut Stats) {
-    if c.str_of("kind") == "blackbox" || c.str_of("kind") == "big" || c.str_of("kind") == "wall" {
+    if c.str_of("kind") == "blackbox" || c.str_of("kind") == "big" || c.str_of("kind") == "wall" || c.str_of("kind") == "wall_reused" {
         replay_other(which, c, st);
         return;
     }
@@ -811,6 +811,60 @@ fn wall_trial(p: &Pos, budget_us: u64, st: &mut Stats) {
     }
 }
 
+/// Wall-clock budget on an engine that has ALREADY searched in this "process": a long first search
+/// (so any per-engine poll schedule or counter has run far ahead), then a search with a tiny
+/// budget whose overshoot is measured in nodes by the hook.
+fn wall_trial_reused(p: &Pos, first_ms: u64, budget_us: u64, st: &mut Stats) {
+    let b = eng::board_from_pos(p);
+    let mut s = Searcher::new();
+    let r0 = {
+        let s = &mut s;
+        engine_call(|| {
+            s.find_best_move(&b, 64, Some(Duration::from_millis(first_ms)));
+        })
+    };
+    if r0.is_err() {
+        return;
+    }
+    let first_nodes = s.verif_nodes();
+    s.verif_timer().overrun_cap = Some(OVERSHOOT_BOUND);
+    let r = {
+        let s = &mut s;
+        engine_call(|| {
+            s.find_best_move(&b, 64, Some(Duration::from_micros(budget_us)));
+        })
+    };
+    let case = || big_case_json(p, 64, "wall_reused", vec![("first_search_ms", J::i(first_ms as i64)), ("budget_us", J::i(budget_us as i64))]);
+    st.case(hash64(&(p.key(), first_ms, budget_us)), true);
+    st.bump("wall_clock_trials_on_an_engine_that_searched_before");
+    st.maxi("max_nodes_of_the_earlier_search", first_nodes);
+    match r {
+        Err(msg) => {
+            if msg.contains("after the deadline") {
+                st.violation(
+                    format!("C07:ignored-wall-reused:{}:{}:{}", p.to_fen(), first_ms, budget_us),
+                    format!("after an earlier search of {} ms ({} nodes) on the same engine, a search of {} with a budget of {} us expanded more than {} nodes after the budget ran out (stopped by the monitor's cap)", first_ms, first_nodes, p.to_fen(), budget_us, OVERSHOOT_BOUND),
+                    case(),
+                );
+            } else {
+                st.violation(format!("C07:panic:{}:wall-reused", p.to_fen()), format!("search of {} panicked: {}", p.to_fen(), msg), case());
+            }
+        }
+        Ok(()) => {
+            let nodes = s.verif_nodes();
+            let over = s.verif_timer().expired_at.get().map(|at| nodes.saturating_sub(at)).unwrap_or(0);
+            st.maxi("max_nodes_after_deadline", over);
+            if over > OVERSHOOT_BOUND {
+                st.violation(
+                    format!("C07:overshoot-wall-reused:{}:{}:{}", p.to_fen(), first_ms, budget_us),
+                    format!("after an earlier search of {} ms on the same engine, a search of {} with a budget of {} us expanded {} nodes after the budget ran out", first_ms, p.to_fen(), budget_us, over),
+                    case(),
+                );
+            }
+        }
+    }
+}
+
 fn c07_wall(ctx: &Ctx) -> Stats {
     let n = ctx.budget(320, 6000);
     parallel(ctx.workers, |w| {
@@ -832,6 +886,10 @@ fn c07_wall(ctx: &Ctx) -> Stats {
             } as u64;
             st.sample_tagged("wall", || big_case_json(&p, 64, "wall", vec![("budget_us", J::i(us as i64))]));
             wall_trial(&p, us, &mut st);
+            if i % 4 == 1 {
+                let first = *rng.pick(&[30u64, 80, 150]);
+                wall_trial_reused(&p, first, us.min(2000), &mut st);
+            }
         }
         st
     })
@@ -850,6 +908,11 @@ fn replay_other(which: &str, c: &J, st: &mut Stats) {
         "wall" => {
             for _ in 0..5 {
                 wall_trial(&p, c.int_of("budget_us") as u64, st);
+            }
+        }
+        "wall_reused" => {
+            for _ in 0..3 {
+                wall_trial_reused(&p, c.int_of("first_search_ms") as u64, c.int_of("budget_us") as u64, st);
             }
         }
         _ => st.inconclusive.push(format!("replay of black-box {} cases: re-run the check (the case is in the replay file)", which)),
@@ -882,6 +945,15 @@ fn c07_blackbox(ctx: &Ctx) -> Stats {
                 continue;
             }
             let t = *rng.pick(&[0u64, 1, 5, 20, 50, 100, 200]);
+            if i % 3 == 0 {
+                // a long search first (one that outlasts any earlier one in this process), so that a
+                // poll schedule kept across searches has run far ahead of the next search
+                let warm = format!("go movetime {}", rng.pick(&[600u64, 900, 1200]));
+                let _ = eng.send(&format!("position fen {}", p.to_fen()));
+                if eng.command(&warm, Duration::from_secs(30)).is_ok() {
+                    st.bump("blackbox_short_go_after_a_long_search");
+                }
+            }
             let script = vec![format!("position fen {}", p.to_fen()), format!("go movetime {}", t)];
             let case = J::obj(vec![("kind", J::s("blackbox")), ("commands", J::arr_s(script.clone()))]);
             if eng.send(&script[0]).is_err() {
